@@ -30,6 +30,16 @@ def gen_separated(rng, n, m, mag):
     return X + off, np.array(s) * mag
 
 
+def window_hit(Xa):
+    """a column whose sum lies inside the library's zero-sum window (-1e-6, 1e-6) although its mean is not negligible
+    against its spread: MatrixColAverage stores 0 for it (known finding C10 MatrixColAverage/sum_inside_zero_window)
+    and the matrix is then not centred; such inputs are left to C10"""
+    Xa = np.asarray(Xa, dtype=float)
+    s_ = Xa.sum(axis=0)
+    sd = Xa.std(axis=0)
+    return bool(((np.abs(s_) < 2e-6) & (np.abs(Xa.mean(axis=0)) > 1e-6 * (sd + 1e-300))).any())
+
+
 def preprocess(Xa, scaling):
     m = Xa.shape[1]
     if scaling < 0:
@@ -83,6 +93,9 @@ def run(ck, rng, tier):
         kind = rng.choice(("plain", "rowperm", "colperm", "rotate"))
         if kind == "rotate" and scaling not in (0,):
             kind = "plain"
+        if scaling >= 0 and window_hit(X):
+            ck.count("skipped: column sum inside the zero-sum window (known finding C10)")
+            continue
         lines.append("pca %s %s %d %d %d" % (vf.fmt_mat(X.tolist(), m), vf.fmt_mat([X[0].tolist()], m), scaling, npc, nproc))
         meta.append(("base", X, scaling, npc, mag, kind))
         if kind == "rowperm":
@@ -98,6 +111,9 @@ def run(ck, rng, tier):
             X2 = X @ perm
         else:
             perm, X2 = None, None
+        if X2 is not None and scaling >= 0 and window_hit(X2):
+            ck.count("skipped: column sum inside the zero-sum window (known finding C10)")
+            X2 = None
         if X2 is not None:
             lines.append("pca %s %s %d %d %d" % (vf.fmt_mat(X2.tolist(), m), vf.fmt_mat([X2[0].tolist()], m), scaling, npc, nproc))
             meta.append((kind, X2, scaling, npc, mag, perm))
